@@ -590,7 +590,7 @@ def run_all(jobs, modname=__name__):
     recs = [None] * len(jobs)
     for idx, limit in ((small, 20.0), (big, 240.0)):
         if idx:
-            for k, r in zip(idx, pool.run_jobs(modname, [jobs[k] for k in idx], limit=limit)):
+            for k, r in zip(idx, pool.run_jobs(modname, [jobs[k] for k in idx], limit=limit, reuse=True, abort=(limit < 100))):
                 recs[k] = r
     return recs
 
